@@ -32,7 +32,8 @@ THEOREMS = [
     "C09_lambda_sq_pos_partial", "C09_policy_before_visit", "C09_policy_after_visit_partial",
     "C09_select_root_move_legal", "C09_select_root_move_accepted",
     "C09_policy_meets_solver_contract_partial", "C09_multiplier_in_range_partial",
-            "C09_source_gen_policy_probs_unvisited", "C09_source_gen_policy_probs_eq", "C09_source_multiplier_is_lambda64", "C09_source_gen_policy_probs_terminal", "C09_source_gen_policy_call_preconditions"]
+            "C09_source_gen_policy_probs_unvisited", "C09_source_gen_policy_probs_eq", "C09_source_multiplier_is_lambda64", "C09_source_gen_policy_probs_terminal", "C09_source_gen_policy_call_preconditions",
+            "C09_source_select_root_move_legal", "C09_source_get_move_legal"]
 MODEL_TARGETS = c08.MODEL_TARGETS + ["model/Solver.vo", "model/LambdaF64.vo"]
 TRUSTED_BASE = c08.TRUSTED_BASE + [
     "wrappers around tak_ext.solve_policy and Node.policy_probs installed for the duration of a search",
